@@ -231,7 +231,7 @@ def footprint(ctx, doc, sym, det):
 
 
 def run(ctx):
-    ctx.lean_stage([], ["Verif.Props.C11"])
+    ctx.lean_stage([], ["Verif.Props.C11", "Verif.Props.C20LeanMark"])   # pragma_invisible_leanmark lives with the L_shift instances
     stats, samples = c07.engine_correspondence(ctx, 150 if ctx.quick() else 3000, tag="pragma", gen=gen, corpus=[])
     n_rec, bad = recognition(ctx, not ctx.quick())
     for s, r, mp in bad:
